@@ -146,6 +146,14 @@ def probing(R, P, fns):
     if R.require(nf is not None and len(rv) == 1, "s_find_entry1: verdict variable / AWS_ERROR_HASHTBL_ITEM_NOT_FOUND not found"):
         rvn = list(rv)[0]
         dom = dominators(f)
+        counters = set()
+        for b_ in f.blocks.values():
+            for el in b_.elems:
+                for x in f.walk(el):
+                    if (x["k"] == "un" and x["op"] in ("post++", "pre++")) or (x["k"] == "bin" and x["op"] == "+="):
+                        t_ = f.d(x["a"][0])
+                        if t_ is not None and t_["k"] == "var":
+                            counters.add(t_["n"])
         n = 0
         for e in f.all_events():
             if not (e.kind == "access" and e.node["k"] == "var" and e.node["n"] == rvn and e.mode == "w"):
@@ -164,8 +172,16 @@ def probing(R, P, fns):
                     if g[1] == "==" and (g[2] is None or f.is_const(g[2]) == 0) and l_ is not None and l_["k"] == "member" and l_["f"] == "hash_code":
                         return True  # an empty slot
                     if g[2] is not None and g[1] in ("<", ">"):
-                        names = {x["n"] for side in (g[0], g[2]) for x in f.walk(side, follow_refs=True) if x["k"] == "var"}
-                        return any("probe" in n_ for n_ in names)
+                        # the examined entry's own probe distance (computed from its hash code) against our probe counter
+                        def from_hash(n_):
+                            o_ = RU.origin(f, n_)
+                            return o_ is not None and any(x["k"] == "member" and x["f"] == "hash_code" for x in f.walk(o_, follow_refs=True))
+
+                        def counter(n_):
+                            v_ = RU.uncast(f, n_)
+                            return v_ is not None and v_["k"] == "var" and v_["n"] in counters
+                        small, big = (g[0], g[2]) if g[1] == "<" else (g[2], g[0])
+                        return from_hash(small) and counter(big)
                     return False
                 ok = any(reason(g) for g in gs)
                 R.check(ok, "FIND", "not-found-only-at-empty-or-shorter-probe:line%d" % e.line, where(f, e), "`not found` is decided at an empty slot or at an entry with a shorter probe distance",
@@ -230,7 +246,18 @@ def destruct(R, fns):
                         "%s runs only when %s is also set (%s): in a table with only one of the two destructors the other kind of object is never destroyed (leaked on overwrite)" % (via[1], other, cross))
                 g = gl(f, e)
                 if name == "aws_hash_table_put":
-                    ok = ("*was_created", "==", None) in g and (via[1] != "destroy_key_fn" or ("p_elem->key", "!=", "key") in g)
+                    # the `created` verdict: what aws_hash_table_create stored through its last argument - the caller's
+                    # out-parameter itself, or a local whose address was passed
+                    cflags = {"*was_created"}
+                    for ce in f.calls("aws_hash_table_create"):
+                        a3 = RU.arg(f, ce.node, 3)
+                        t3 = RU.strip_addr(f, a3) if a3 is not None else None
+                        u3 = RU.uncast(f, a3) if a3 is not None else None
+                        if u3 is not None and u3["k"] == "un" and u3["op"] == "addr" and t3 is not None:
+                            cflags.add(f.show(t3))
+                        elif u3 is not None:
+                            cflags.add("*" + f.show(u3))
+                    ok = any((c_, "==", None) in g for c_ in cflags) and (via[1] != "destroy_key_fn" or ("p_elem->key", "!=", "key") in g)
                     R.check(ok, "DESTRUCT", "put:%s-guard" % via[1], where(f, e), "only when an existing entry is overwritten%s (%s)" % (" and the key pointer differs" if "key" in via[1] else "", g),
                             "put's %s is not guarded by `existing entry`%s: %s" % (via[1], " and `different key pointer`" if "key" in via[1] else "", g))
                     want = "p_elem->key" if "key" in via[1] else "p_elem->value"
